@@ -377,7 +377,11 @@ where
   ) {
     for (inst, gen) in instance_generations {
       if let Some(imd) = self.instance_map.get_mut(inst) {
-        imd.last_generation_accessed = *gen;
+        // Accessing samples of an older generation must not make the instance look
+        // NEW again: only move forward.
+        if gen.total() > imd.last_generation_accessed.total() {
+          imd.last_generation_accessed = *gen;
+        }
       } else {
         panic!("Instance disappeared!?!!1!");
       }
